@@ -1,6 +1,1010 @@
-//! C20 — not built yet.
-use crate::ev::Tier;
-pub fn main(_tier: Tier, _replay: Option<serde_json::Value>) -> i32 {
-    eprintln!("C20: check not built yet");
-    2
+//! C20 — KZG commitments and openings are exact.
+//!
+//! Sections: `srs` (setup consistency), `trim`, `commit` (linear image, degree
+//! boundary), `open` (single openings vs the M4 pairing equation), `batch`
+//! (batch_check over every single-position corruption), `aggregate`
+//! (aggregate witness + flatten). Oracle: M4 (explicit sums, two pairings).
+
+use std::panic::{catch_unwind, AssertUnwindSafe};
+use std::sync::Arc;
+
+use dusk_bls12_381::{G1Affine, G1Projective, G2Affine};
+use dusk_bytes::Serializable;
+use dusk_plonk::prelude::PublicParameters;
+use dusk_plonk::verif::kernels as k;
+use serde_json::{json, Value};
+
+use crate::c19::Acc;
+use crate::ev::{Run, Tier};
+use crate::fe::*;
+use crate::m4;
+use crate::par::{panic_msg, par_map};
+use crate::rng::SeedRng;
+
+const LABEL: &[u8] = b"c20-batch";
+
+fn guard<T>(f: impl FnOnce() -> T) -> Result<T, String> {
+    catch_unwind(AssertUnwindSafe(f)).map_err(panic_msg)
+}
+
+fn g1hex(p: &G1Affine) -> String {
+    p.to_bytes().iter().map(|b| format!("{:02x}", b)).collect()
+}
+
+fn hexv(v: &[Fe]) -> Value {
+    json!(v.iter().map(hex).collect::<Vec<_>>())
+}
+
+fn is_id(p: &G1Affine) -> bool {
+    bool::from(p.is_identity())
+}
+
+fn add_g(p: &G1Affine, g: &G1Affine) -> G1Affine {
+    G1Affine::from(G1Projective::from(*p) + G1Projective::from(*g))
+}
+
+fn rho_vec(len: usize, stream: u64) -> Vec<Fe> {
+    let mut r = Rho::new(seed(), 2100 + stream);
+    (0..len).map(|_| r.next_fe()).collect()
+}
+
+fn rho_scalar(stream: u64) -> Fe {
+    Rho::new(seed(), 2200 + stream).next_fe()
+}
+
+pub fn setup(d: usize) -> Result<PublicParameters, String> {
+    let mut rng = SeedRng(Rho::new(seed(), 2000 + d as u64));
+    match guard(|| PublicParameters::setup(d, &mut rng)) {
+        Ok(Ok(pp)) => Ok(pp),
+        Ok(Err(e)) => Err(format!("Err({:?})", e)),
+        Err(p) => Err(format!("panic: {}", p)),
+    }
+}
+
+pub struct Ctx {
+    pub d: usize,
+    pub pp: PublicParameters,
+    pub srs: m4::Srs,
+    pub bytes: Vec<u8>,
+}
+
+// ---------------------------------------------------------------------------
+// srs
+// ---------------------------------------------------------------------------
+
+fn srs_for_degree(d: usize) -> (Acc, Option<Ctx>) {
+    let mut acc = Acc::default();
+    let desc = json!({"kernel": "setup", "degree": d});
+    let pp = match setup(d) {
+        Ok(pp) => pp,
+        Err(e) => {
+            acc.case("setup", "failed", None);
+            acc.fail("srs", "srs/setup-fails", format!("PublicParameters::setup({}) failed: {}", d, e), desc);
+            return (acc, None);
+        }
+    };
+    let bytes = pp.to_var_bytes();
+    let Some(srs) = m4::parse_srs(&bytes) else {
+        acc.case("setup", "unparsable", None);
+        acc.fail("srs", "srs/unparsable-bytes", format!("to_var_bytes of setup({}) does not decode into valid points", d), desc);
+        return (acc, None);
+    };
+    acc.case("setup", &format!("d={}", d), Some(fnv(&bytes)));
+    if srs.powers.len() != d + 7 || pp.max_degree() != d + 6 {
+        acc.fail("srs", "srs/point-count", format!("setup({}) has {} points, max_degree() = {}; expected {} points", d, srs.powers.len(), pp.max_degree(), d + 7), desc.clone());
+    }
+    if srs.powers.is_empty() || srs.powers[0] != srs.g {
+        acc.fail("srs", "srs/p0-not-g", format!("setup({}): first commit-key point differs from the opening key's g", d), desc.clone());
+    }
+    let g2_id = |p: &G2Affine| bool::from(p.is_identity());
+    if srs.powers.iter().any(is_id) || is_id(&srs.g) || g2_id(&srs.h) || g2_id(&srs.x_h) {
+        acc.fail("srs", "srs/identity-point", format!("setup({}) contains the identity", d), desc.clone());
+    }
+    if srs.h == srs.x_h {
+        acc.outcome("info:secret-is-one");
+    }
+    for i in 0..srs.powers.len().saturating_sub(1) {
+        acc.case("setup-power-link", &format!("d={}", d), Some(fnv(format!("link|{}|{}", d, i).as_bytes())));
+        if !m4::is_next_power(&srs.powers[i + 1], &srs.powers[i], &srs.h, &srs.x_h) {
+            acc.fail("srs", "srs/inconsistent-powers", format!("setup({}): e(P_{}, h) != e(P_{}, x_h)", d, i + 1, i), json!({"kernel": "setup", "degree": d, "index": i}));
+        } else {
+            acc.outcome("srs:power-link-consistent");
+        }
+    }
+    // the pairing check must be able to fail: a skipped point is not the next power
+    if srs.powers.len() >= 3 && m4::is_next_power(&srs.powers[2], &srs.powers[0], &srs.h, &srs.x_h) {
+        acc.outcome("info:P2-is-next-power-of-P0(secret of order 1)");
+    } else {
+        acc.outcome("srs:pairing-link-check-can-fail");
+    }
+    (acc, Some(Ctx { d, pp, srs, bytes }))
+}
+
+// ---------------------------------------------------------------------------
+// trim
+// ---------------------------------------------------------------------------
+
+fn trim_for(ctx: &Ctx) -> Acc {
+    let mut acc = Acc::default();
+    let d = ctx.d;
+    for n in 0..=d + 3 {
+        let desc = json!({"kernel": "trim", "degree": d, "n": n, "srs_points": ctx.srs.powers.len()});
+        let fits = n + 7 <= ctx.srs.powers.len();
+        let shape = format!("d={}/{}", d, if fits { "fits" } else { "beyond-capacity" });
+        match guard(|| k::trim(&ctx.pp, n)) {
+            Err(p) => {
+                acc.case("trim", &shape, None);
+                acc.fail("trim", "trim/panic", format!("trim({}) of setup({}) panicked: {}", n, d, p), desc);
+            }
+            Ok(Err(e)) => {
+                acc.case("trim", &shape, None);
+                if fits {
+                    acc.fail("trim", "trim/refuses-supported-size", format!("trim({}) of setup({}) returned Err({:?}) although n + 7 <= {} points", n, d, e, ctx.srs.powers.len()), desc);
+                } else {
+                    acc.outcome("trim:Err-beyond-capacity");
+                }
+            }
+            Ok(Ok(keys)) => {
+                let pw = keys.powers();
+                acc.case("trim", &shape, Some(fnv(format!("trim|{}|{}", d, n).as_bytes())));
+                if !fits {
+                    acc.fail("trim", "trim/accepts-beyond-capacity", format!("trim({}) of setup({}) returned Ok with {} points", n, d, pw.len()), desc.clone());
+                }
+                if pw.len() < n + 7 {
+                    acc.fail(
+                        "trim",
+                        "trim/too-short",
+                        format!("trim({}) of setup({}) keeps {} points; the prover commits to polynomials of degree n + 6 = {} ({} coefficients)", n, d, pw.len(), n + 6, n + 7),
+                        desc.clone(),
+                    );
+                } else if pw.len() == n + 7 {
+                    acc.outcome("trim:keeps-exactly-n+7-points");
+                } else {
+                    acc.outcome("trim:keeps-more-than-n+7-points");
+                }
+                if pw.len() > ctx.srs.powers.len() || pw[..] != ctx.srs.powers[..pw.len()] {
+                    acc.fail("trim", "trim/not-a-prefix", format!("trim({}) of setup({}) is not a prefix of the SRS", n, d), desc.clone());
+                }
+                if keys.opening_bytes()[..] != ctx.bytes[..m4::OPENING_KEY_BYTES] {
+                    acc.fail("trim", "trim/opening-key-differs", format!("trim({}) of setup({}) changes the opening key", n, d), desc.clone());
+                }
+            }
+        }
+    }
+    acc
+}
+
+// ---------------------------------------------------------------------------
+// commit
+// ---------------------------------------------------------------------------
+
+fn commit_real(keys: &k::Keys, c: &[Fe]) -> Result<Result<G1Affine, String>, String> {
+    guard(|| keys.commit(c).map_err(|e| format!("{:?}", e)))
+}
+
+fn commit_for(ctx: &Ctx, n_trim: usize) -> Acc {
+    let mut acc = Acc::default();
+    let d = ctx.d;
+    let keys = match guard(|| k::trim(&ctx.pp, n_trim)) {
+        Ok(Ok(k)) => k,
+        _ => {
+            acc.machinery.push(format!("commit section: trim({}) of setup({}) failed", n_trim, d));
+            return acc;
+        }
+    };
+    let points = keys.powers();
+    let np = points.len();
+    let key_shape = format!("d={}/trim={}", d, n_trim);
+    for len in 0..=np + 2 {
+        let mut pats: Vec<(String, Vec<Fe>)> = vec![("zeros".into(), vec![zero(); len])];
+        if len > 0 {
+            for i in [0, len / 2, len - 1] {
+                let nm = format!("e_{}", i);
+                if !pats.iter().any(|(n, _)| *n == nm) {
+                    let mut v = vec![zero(); len];
+                    v[i] = one();
+                    pats.push((nm, v));
+                }
+            }
+            pats.push(("ones".into(), vec![one(); len]));
+            pats.push(("rho".into(), rho_vec(len, 1)));
+            if len > np {
+                let mut v = rho_vec(len, 2);
+                for x in v.iter_mut().skip(np) {
+                    *x = zero();
+                }
+                pats.push(("rho-zero-padded-beyond-degree".into(), v));
+            }
+        }
+        for (pn, c) in pats {
+            let t = m4::trim(&c);
+            let within = t.len() <= np;
+            let shape = format!("{}/{}", key_shape, if len > np { "len>points" } else if len == np { "len=points" } else { "len<points" });
+            let desc = json!({"kernel": "commit", "degree": d, "trim": n_trim, "points": np, "len": len, "pattern": pn, "effective_len": t.len()});
+            match commit_real(&keys, &c) {
+                Err(p) => {
+                    acc.case("commit", &shape, None);
+                    acc.fail("commit", "commit/panic", format!("commit panicked: {}", p), desc);
+                }
+                Ok(Err(e)) => {
+                    acc.case("commit", &shape, None);
+                    if within {
+                        acc.fail("commit", "commit/refuses-within-degree", format!("commit of {} coefficients on {} points returned Err({})", t.len(), np, e), desc);
+                    } else {
+                        acc.outcome("commit:Err-beyond-degree");
+                    }
+                }
+                Ok(Ok(cm)) => {
+                    acc.case("commit", &shape, if t.is_empty() { None } else { Some(fnv(desc.to_string().as_bytes())) });
+                    if !within {
+                        acc.fail("commit", "commit/accepts-beyond-degree", format!("commit of {} coefficients on {} points returned Ok", t.len(), np), desc);
+                        continue;
+                    }
+                    let exp = m4::affine(m4::commit(&points, &t).expect("within"));
+                    if cm != exp {
+                        let mut dd = desc;
+                        dd["real"] = json!(g1hex(&cm));
+                        dd["expected"] = json!(g1hex(&exp));
+                        acc.fail("commit", "commit/not-the-explicit-sum", format!("commit differs from Σ c_i·P_i (len {}, {})", len, pn), dd);
+                    } else if t.is_empty() {
+                        if is_id(&cm) {
+                            acc.outcome("commit:zero-polynomial-is-identity");
+                        } else {
+                            acc.fail("commit", "commit/zero-not-identity", "commit of the zero polynomial is not the identity".into(), desc);
+                        }
+                    } else {
+                        acc.outcome("commit:equals-explicit-sum");
+                    }
+                }
+            }
+        }
+    }
+    // additivity and homogeneity on the real commitments
+    let mut lens: Vec<usize> = vec![0, 1, 2, np / 2, np - 1, np];
+    lens.dedup();
+    let polys: Vec<Vec<Fe>> = lens.iter().enumerate().map(|(i, l)| rho_vec(*l, 10 + i as u64)).collect();
+    let cms: Vec<Option<G1Affine>> = polys.iter().map(|p| commit_real(&keys, p).ok().and_then(|r| r.ok())).collect();
+    for (i, a) in polys.iter().enumerate() {
+        for (j, b) in polys.iter().enumerate() {
+            let desc = json!({"kernel": "commit", "degree": d, "trim": n_trim, "a_len": a.len(), "b_len": b.len(), "a": hexv(a), "b": hexv(b)});
+            let (Some(ca), Some(cb)) = (cms[i], cms[j]) else {
+                acc.machinery.push("commit of an in-range rho polynomial failed".into());
+                continue;
+            };
+            let sum = m4::poly_add(a, b);
+            match commit_real(&keys, &sum) {
+                Ok(Ok(cs)) => {
+                    acc.case("commit-additivity", &key_shape, Some(fnv(desc.to_string().as_bytes())));
+                    if cs != add_g(&ca, &cb) {
+                        acc.fail("commit", "commit/not-additive", "commit(a) + commit(b) != commit(a + b)".into(), desc.clone());
+                    } else {
+                        acc.outcome("commit:additive");
+                    }
+                }
+                other => acc.fail("commit", "commit/sum-refused", format!("commit(a + b) failed: {:?}", other.map(|r| r.map(|p| g1hex(&p)))), desc.clone()),
+            }
+            if i == j {
+                // a + (-a) is the zero polynomial
+                let z = m4::poly_add(a, &m4::poly_neg(a));
+                match commit_real(&keys, &z) {
+                    Ok(Ok(cz)) => {
+                        acc.case("commit-additivity", &key_shape, None);
+                        if !is_id(&cz) {
+                            acc.fail("commit", "commit/zero-not-identity", "commit(a − a) is not the identity".into(), desc.clone());
+                        }
+                    }
+                    _ => acc.fail("commit", "commit/sum-refused", "commit(a − a) failed".into(), desc.clone()),
+                }
+                for (sn, s) in [("0", zero()), ("1", one()), ("-1", neg1()), ("rho", rho_scalar(1))] {
+                    match commit_real(&keys, &m4::poly_scale(a, s)) {
+                        Ok(Ok(cs)) => {
+                            acc.case("commit-homogeneity", &key_shape, Some(fnv(format!("{}|{}", desc, sn).as_bytes())));
+                            if cs != G1Affine::from(G1Projective::from(ca) * s) {
+                                acc.fail("commit", "commit/not-homogeneous", format!("commit(s·a) != s·commit(a), s = {}", sn), desc.clone());
+                            } else {
+                                acc.outcome("commit:homogeneous");
+                            }
+                        }
+                        _ => acc.fail("commit", "commit/sum-refused", "commit(s·a) failed".into(), desc.clone()),
+                    }
+                }
+            }
+        }
+    }
+    acc
+}
+
+// ---------------------------------------------------------------------------
+// openings
+// ---------------------------------------------------------------------------
+
+#[derive(Clone)]
+pub struct Opening {
+    pub name: String,
+    pub z: Fe,
+    pub c: G1Affine,
+    pub e: Fe,
+    pub w: G1Affine,
+}
+
+fn points_alphabet() -> Vec<(&'static str, Fe)> {
+    vec![("0", zero()), ("1", one()), ("-1", neg1()), ("rho", rho_scalar(2)), ("omega_8", m4::root_of_unity(8))]
+}
+
+fn m4_holds(srs: &m4::Srs, o: &Opening) -> bool {
+    m4::opening_holds(&srs.g, &srs.h, &srs.x_h, &o.c, o.z, o.e, &o.w)
+}
+
+fn single(keys: &k::Keys, o: &Opening) -> Result<bool, String> {
+    guard(|| keys.batch_check(LABEL_STATIC, &[(o.z, o.c, o.e, o.w)], None).is_ok())
+}
+
+static LABEL_STATIC: &[u8] = LABEL;
+
+/// Honest opening of `p` at `z` produced by the real kernels (ruffini + commit).
+fn open_real(keys: &k::Keys, p: &[Fe], z: Fe, name: String) -> Result<(Opening, Vec<Fe>), String> {
+    let wpoly = guard(|| k::poly_ruffini(p, z))?;
+    let c = commit_real(keys, p)?.map_err(|e| format!("commit(p): {}", e))?;
+    let w = commit_real(keys, &wpoly)?.map_err(|e| format!("commit(witness): {}", e))?;
+    Ok((Opening { name, z, c, e: m4::horner(p, z), w }, wpoly))
+}
+
+fn open_polys(np: usize) -> Vec<(String, Vec<Fe>)> {
+    let mut out: Vec<(String, Vec<Fe>)> = vec![("zero".into(), vec![]), ("const".into(), vec![fe(7)]), ("ones5".into(), vec![one(); 5])];
+    let mut lens = vec![1usize, 2, 3, 8, 17, np - 1, np];
+    lens.retain(|l| *l <= np);
+    lens.sort();
+    lens.dedup();
+    for l in lens {
+        out.push((format!("rho{}", l), rho_vec(l, 30 + l as u64)));
+    }
+    out
+}
+
+fn open_for(ctx: &Ctx) -> Acc {
+    let mut acc = Acc::default();
+    let d = ctx.d;
+    let Ok(Ok(keys)) = guard(|| k::trim(&ctx.pp, d)) else {
+        acc.machinery.push(format!("open section: trim({}) failed", d));
+        return acc;
+    };
+    let points = keys.powers();
+    let mut cases = vec![];
+    for (pn, p) in open_polys(points.len()) {
+        for (zn, z) in points_alphabet() {
+            cases.push((pn.clone(), p.clone(), zn, z));
+        }
+        // a polynomial with a root at the opening point: evaluation 0
+        if p.len() >= 2 {
+            let z = rho_scalar(3);
+            let shifted = m4::poly_add_scalar(&p, -m4::horner(&p, z));
+            cases.push((format!("{}-minus-value", pn), shifted, "rho-root", z));
+        }
+    }
+    let parts = par_map(&cases, |(pn, p, zn, z)| {
+        let mut acc = Acc::default();
+        let shape = format!("d={}/len={}/z={}", d, p.len().min(4), zn);
+        let desc = json!({"kernel": "open", "degree": d, "polynomial": pn, "coefficients": hexv(p), "point": zn, "point_value": hex(z)});
+        let (o, wpoly) = match open_real(&keys, p, *z, format!("{}@{}", pn, zn)) {
+            Ok(x) => x,
+            Err(e) => {
+                acc.case("open", &shape, None);
+                acc.fail("open", "open/kernel-failed", format!("producing the opening failed: {}", e), desc);
+                return acc;
+            }
+        };
+        acc.case("open", &shape, if m4::trim(&wpoly).is_empty() { None } else { Some(fnv(desc.to_string().as_bytes())) });
+        // witness polynomial and its commitment vs M4
+        let (q, r) = m4::div_linear(p, *z);
+        if r != o.e {
+            acc.machinery.push("M4 remainder differs from Horner".into());
+        }
+        if !m4::poly_eq(&wpoly, &q) {
+            acc.fail("open", "open/witness-polynomial-wrong", "ruffini quotient differs from the M4 synthetic division".into(), desc.clone());
+        }
+        let wexp = m4::affine(m4::commit(&points, &m4::trim(&q)).expect("quotient fits"));
+        if wexp != o.w {
+            acc.fail("open", "open/witness-commitment-wrong", "commitment of the witness differs from Σ q_i·P_i".into(), desc.clone());
+        }
+        // M4 pairing equation: true value passes, value + 1 fails
+        let ok = m4_holds(&ctx.srs, &o);
+        let mut bad = o.clone();
+        bad.e = o.e + one();
+        let ok_bad = m4_holds(&ctx.srs, &bad);
+        if !ok {
+            acc.fail("open", "open/honest-opening-fails-pairing-equation", format!("e(C − vG, H) != e(W, X_H − zH) for the honest opening of {} at {}", pn, zn), desc.clone());
+        } else {
+            acc.outcome("open:honest-opening-satisfies-M4-equation");
+        }
+        if ok_bad && ok {
+            acc.machinery.push(format!("M4 pairing equation accepts both v and v + 1 ({} at {})", pn, zn));
+        } else if ok_bad {
+            acc.fail("open", "open/pairing-equation-holds-for-value+1", format!("the opening of {} at {} produced by the kernels satisfies the equation for v + 1", pn, zn), desc.clone());
+        } else {
+            acc.outcome("open:value+1-fails-M4-equation");
+        }
+        // the real check on the single opening
+        for (what, op, exp) in [("true-value", &o, true), ("value+1", &bad, false)] {
+            acc.case("batch_check-single", &shape, Some(fnv(format!("{}|{}", desc, what).as_bytes())));
+            match single(&keys, op) {
+                Ok(r) if r == exp => acc.outcome(&format!("open:real-check/{}:{}", what, if r { "Ok" } else { "Err" })),
+                Ok(r) => {
+                    let sig = if r { "open/real-check-accepts-false-evaluation" } else { "open/real-check-rejects-true-evaluation" };
+                    acc.fail("open", sig, format!("batch_check on the single opening of {} at {} with {} returned {}", pn, zn, what, if r { "Ok" } else { "Err" }), desc.clone());
+                }
+                Err(p) => acc.fail("open", "open/real-check-panics", p, desc.clone()),
+            }
+        }
+        acc
+    });
+    for p in parts {
+        match p {
+            Ok(a) => acc.merge(a),
+            Err(e) => acc.machinery.push(format!("open worker panicked: {}", e)),
+        }
+    }
+    acc
+}
+
+// ---------------------------------------------------------------------------
+// batches
+// ---------------------------------------------------------------------------
+
+pub struct BatchCase {
+    pub name: String,
+    pub kind: &'static str,
+    pub items: Vec<Opening>,
+    pub points_override: Option<Vec<Fe>>,
+}
+
+fn batch_bases(keys: &k::Keys, np: usize) -> Result<Vec<(String, Vec<Opening>)>, String> {
+    let zs: Vec<Fe> = vec![rho_scalar(10), zero(), m4::root_of_unity(8), neg1()];
+    let ps: Vec<Vec<Fe>> = vec![rho_vec(np, 50), rho_vec(9.min(np), 51), rho_vec(3, 52), rho_vec(np - 1, 53)];
+    let mut bases = vec![];
+    for s in 1..=4usize {
+        // A: distinct polynomials, distinct points
+        let mut a = vec![];
+        // B: distinct polynomials, one point
+        let mut b = vec![];
+        // C: one polynomial, distinct points
+        let mut c = vec![];
+        // D: degenerate members (constant, zero polynomial) mixed in
+        let mut dd = vec![];
+        let special: Vec<Vec<Fe>> = vec![vec![fe(5)], rho_vec(6, 54), vec![], rho_vec(2, 55)];
+        for i in 0..s {
+            a.push(open_real(keys, &ps[i], zs[i], format!("p{}@z{}", i, i))?.0);
+            b.push(open_real(keys, &ps[i], zs[0], format!("p{}@z0", i))?.0);
+            c.push(open_real(keys, &ps[0], zs[i], format!("p0@z{}", i))?.0);
+            dd.push(open_real(keys, &special[i], zs[(i + 1) % 4], format!("s{}@z{}", i, (i + 1) % 4))?.0);
+        }
+        bases.push((format!("A{}", s), a));
+        bases.push((format!("B{}", s), b));
+        bases.push((format!("C{}", s), c));
+        bases.push((format!("D{}", s), dd));
+    }
+    Ok(bases)
+}
+
+fn batch_cases(bases: &[(String, Vec<Opening>)], g: &G1Affine) -> Vec<BatchCase> {
+    let mut out = vec![];
+    for (bn, items) in bases {
+        let s = items.len();
+        out.push(BatchCase { name: format!("{}/honest", bn), kind: "honest", items: items.clone(), points_override: None });
+        for i in 0..s {
+            let mut m = items.clone();
+            m[i].e = m[i].e + one();
+            out.push(BatchCase { name: format!("{}/wrong-evaluation@{}", bn, i), kind: "wrong-evaluation", items: m, points_override: None });
+            let mut m = items.clone();
+            m[i].w = add_g(&m[i].w, g);
+            out.push(BatchCase { name: format!("{}/wrong-witness@{}", bn, i), kind: "wrong-witness", items: m, points_override: None });
+            let mut m = items.clone();
+            m[i].z = m[i].z + one();
+            let pts: Vec<Fe> = m.iter().map(|o| o.z).collect();
+            out.push(BatchCase { name: format!("{}/point-mismatch@{}", bn, i), kind: "point-mismatch", items: m, points_override: Some(pts) });
+            for j in i + 1..s {
+                let mut m = items.clone();
+                let (ci, cj) = (m[i].c, m[j].c);
+                m[i].c = cj;
+                m[j].c = ci;
+                out.push(BatchCase { name: format!("{}/swapped-commitments@{},{}", bn, i, j), kind: "swapped-commitments", items: m, points_override: None });
+                let mut m = items.clone();
+                m.swap(i, j);
+                out.push(BatchCase { name: format!("{}/permuted-entries@{},{}", bn, i, j), kind: "permuted-entries", items: m, points_override: None });
+            }
+        }
+        // mismatched lengths
+        let pts: Vec<Fe> = items.iter().map(|o| o.z).collect();
+        let mut longer = pts.clone();
+        longer.push(one());
+        out.push(BatchCase { name: format!("{}/points-longer", bn), kind: "length-mismatch", items: items.clone(), points_override: Some(longer) });
+        let shorter = pts[..s - 1].to_vec();
+        out.push(BatchCase { name: format!("{}/points-shorter", bn), kind: "length-mismatch", items: items.clone(), points_override: Some(shorter) });
+    }
+    out.push(BatchCase { name: "empty".into(), kind: "empty", items: vec![], points_override: None });
+    out.push(BatchCase { name: "empty-with-a-point".into(), kind: "length-mismatch", items: vec![], points_override: Some(vec![one()]) });
+    out
+}
+
+fn batch_for(ctx: &Ctx) -> Acc {
+    let mut acc = Acc::default();
+    let d = ctx.d;
+    let Ok(Ok(keys)) = guard(|| k::trim(&ctx.pp, d)) else {
+        acc.machinery.push(format!("batch section: trim({}) failed", d));
+        return acc;
+    };
+    let np = keys.powers().len();
+    let bases = match batch_bases(&keys, np) {
+        Ok(b) => b,
+        Err(e) => {
+            acc.machinery.push(format!("batch section: building honest openings failed: {}", e));
+            return acc;
+        }
+    };
+    let cases = batch_cases(&bases, &ctx.srs.g);
+    let parts = par_map(&cases, |bc| {
+        let mut acc = Acc::default();
+        let s = bc.items.len();
+        let shape = format!("d={}/size={}/{}", d, s, bc.kind);
+        let desc = json!({"kernel": "batch_check", "degree": d, "batch": bc.name, "kind": bc.kind, "size": s,
+            "items": bc.items.iter().map(|o| json!({"opening": o.name, "point": hex(&o.z), "commitment": g1hex(&o.c), "evaluation": hex(&o.e), "witness": g1hex(&o.w)})).collect::<Vec<_>>(),
+            "points_override": bc.points_override.as_ref().map(|p| hexv(p))});
+        // oracle: structural errors first, then every entry must satisfy the M4 equation at the point the verifier is given
+        let pts: Vec<Fe> = match &bc.points_override {
+            Some(p) => p.clone(),
+            None => bc.items.iter().map(|o| o.z).collect(),
+        };
+        let expected = if s == 0 || pts.len() != s {
+            false
+        } else {
+            bc.items.iter().zip(&pts).all(|(o, z)| m4::opening_holds(&ctx.srs.g, &ctx.srs.h, &ctx.srs.x_h, &o.c, *z, o.e, &o.w))
+        };
+        let tuples: Vec<(Fe, G1Affine, Fe, G1Affine)> = bc.items.iter().map(|o| (o.z, o.c, o.e, o.w)).collect();
+        let real = guard(|| keys.batch_check(LABEL_STATIC, &tuples, bc.points_override.as_deref()).map_err(|e| format!("{:?}", e)));
+        acc.case("batch_check", &shape, Some(fnv(bc.name.as_bytes()) ^ d as u64));
+        match real {
+            Err(p) => acc.fail("batch", &format!("batch_check/panic/{}", bc.kind), format!("batch_check panicked on {}: {}", bc.name, p), desc),
+            Ok(r) => {
+                let ok = r.is_ok();
+                acc.outcome(&format!("batch:{}:{}", bc.kind, if ok { "Ok" } else { "Err" }));
+                if ok != expected {
+                    let sig = if ok { format!("batch_check/accepts-false/{}", bc.kind) } else { format!("batch_check/rejects-true/{}", bc.kind) };
+                    acc.fail("batch", &sig, format!("batch {}: batch_check returned {:?}, M4 says every entry {}", bc.name, r, if expected { "holds" } else { "does not hold" }), desc);
+                } else if !expected {
+                    acc.outcome(&format!("batch:fails-as-expected:{}", bc.kind));
+                }
+            }
+        }
+        acc
+    });
+    for p in parts {
+        match p {
+            Ok(a) => acc.merge(a),
+            Err(e) => acc.machinery.push(format!("batch worker panicked: {}", e)),
+        }
+    }
+    acc
+}
+
+// ---------------------------------------------------------------------------
+// aggregated openings
+// ---------------------------------------------------------------------------
+
+pub struct AggCase {
+    pub name: String,
+    pub polys: Vec<Vec<Fe>>,
+    pub z: Fe,
+    pub v: Fe,
+    pub v_name: &'static str,
+}
+
+fn agg_cases(np: usize, tier: Tier) -> Vec<AggCase> {
+    let fam_a: Vec<Vec<Fe>> = vec![rho_vec(5, 60), rho_vec(np, 61), rho_vec(17.min(np), 62), rho_vec(2, 63)];
+    let fam_b: Vec<Vec<Fe>> = vec![vec![fe(3)], vec![], rho_vec(3, 64), rho_vec(np - 1, 65)];
+    let fam_c: Vec<Vec<Fe>> = vec![rho_vec(np, 66), rho_vec(np, 67), rho_vec(np, 68), rho_vec(np, 69)];
+    let zs: Vec<(&str, Fe)> = tier.pick(
+        vec![("0", zero()), ("rho", rho_scalar(20)), ("omega_8", m4::root_of_unity(8))],
+        vec![("0", zero()), ("1", one()), ("-1", neg1()), ("rho", rho_scalar(20)), ("omega_8", m4::root_of_unity(8))],
+    );
+    let vs: Vec<(&'static str, Fe)> = vec![("rho", rho_scalar(21)), ("1", one()), ("-1", neg1()), ("2", fe(2)), ("0", zero())];
+    let mut out = vec![];
+    for (fname, fam) in [("a", &fam_a), ("b", &fam_b), ("c", &fam_c)] {
+        for kk in 1..=4usize {
+            for (zn, z) in &zs {
+                for (vn, v) in &vs {
+                    out.push(AggCase { name: format!("{}{}@{}/v={}", fname, kk, zn, vn), polys: fam[..kk].to_vec(), z: *z, v: *v, v_name: vn });
+                }
+            }
+        }
+    }
+    out
+}
+
+fn run_agg(ctx: &Ctx, keys: &k::Keys, ac: &AggCase, tag: &str) -> Acc {
+    let mut acc = Acc::default();
+    let d = ctx.d;
+    let kk = ac.polys.len();
+    let shape = format!("d={}/k={}/v={}{}", d, kk, ac.v_name, tag);
+    let desc = json!({"kernel": "aggregate", "degree": d, "case": ac.name, "polynomials": ac.polys.iter().map(|p| hexv(p)).collect::<Vec<_>>(), "point": hex(&ac.z), "challenge": hex(&ac.v)});
+    let refs: Vec<&[Fe]> = ac.polys.iter().map(|p| &p[..]).collect();
+    // aggregate witness polynomial
+    let wit = match guard(|| k::aggregate_witness(&refs, &ac.z, &ac.v)) {
+        Ok(w) => w,
+        Err(p) => {
+            acc.case("aggregate_witness", &shape, None);
+            acc.fail("aggregate", "aggregate_witness/panic", p, desc);
+            return acc;
+        }
+    };
+    let lin = m4::linear_combination(&ac.polys, ac.v);
+    let (q, _) = m4::div_linear(&lin, ac.z);
+    acc.case("aggregate_witness", &shape, if m4::trim(&q).is_empty() { None } else { Some(fnv(desc.to_string().as_bytes())) });
+    if !m4::poly_eq(&wit, &q) {
+        acc.fail("aggregate", "aggregate_witness/wrong-polynomial", format!("aggregate witness differs from (Σ v^i p_i − value)/(X − z) ({})", ac.name), desc.clone());
+    }
+    let (Ok(Ok(w)), cs) = (commit_real(keys, &wit), ac.polys.iter().map(|p| commit_real(keys, p)).collect::<Vec<_>>()) else {
+        acc.fail("aggregate", "aggregate/commit-failed", "commit of the aggregate witness failed".into(), desc);
+        return acc;
+    };
+    let mut cms = vec![];
+    for c in cs {
+        match c {
+            Ok(Ok(c)) => cms.push(c),
+            _ => {
+                acc.machinery.push("aggregate: commit of an in-range polynomial failed".into());
+                return acc;
+            }
+        }
+    }
+    let true_evals: Vec<Fe> = ac.polys.iter().map(|p| m4::horner(p, ac.z)).collect();
+    // claims: all true, then each single evaluation flipped
+    let mut claims: Vec<(String, Vec<Fe>, Option<usize>)> = vec![("all-true".into(), true_evals.clone(), None)];
+    for i in 0..kk {
+        let mut e = true_evals.clone();
+        e[i] = e[i] + one();
+        claims.push((format!("evaluation-{}-false", i), e, Some(i)));
+    }
+    for (cn, evals, flipped) in claims {
+        let parts: Vec<(Fe, G1Affine)> = evals.iter().copied().zip(cms.iter().copied()).collect();
+        let mut dd = desc.clone();
+        dd["claim"] = json!(cn);
+        let (fc, fe_) = match guard(|| k::flatten(w, &parts, &ac.v)) {
+            Ok(x) => x,
+            Err(p) => {
+                acc.case("flatten", &shape, None);
+                acc.fail("aggregate", "flatten/panic", p, dd);
+                continue;
+            }
+        };
+        acc.case("flatten", &shape, Some(fnv(dd.to_string().as_bytes())));
+        let (mc, me) = m4::flatten(&parts, ac.v);
+        let mc = m4::affine(mc);
+        if fc != mc || fe_ != me {
+            let mut d2 = dd.clone();
+            d2["real"] = json!([g1hex(&fc), hex(&fe_)]);
+            d2["expected"] = json!([g1hex(&mc), hex(&me)]);
+            acc.fail("aggregate", "flatten/wrong-combination", format!("flatten differs from (Σ v^i C_i, Σ v^i e_i) ({}, k={})", ac.name, kk), d2);
+        } else {
+            acc.outcome("aggregate:flatten-equals-linear-combination");
+        }
+        // truth: every claimed evaluation is the Horner value
+        let all_true = flipped.is_none();
+        // a flip at position i is invisible when v^i = 0 (degenerate challenge): informational
+        let degenerate = match flipped {
+            Some(i) => m4::pow_u64(ac.v, i as u64) == zero(),
+            None => false,
+        };
+        let m4_ok = m4::opening_holds(&ctx.srs.g, &ctx.srs.h, &ctx.srs.x_h, &mc, ac.z, me, &w);
+        if degenerate {
+            acc.outcome(&format!("info:aggregate/challenge-0-hides-false-evaluation:M4-equation-{}", if m4_ok { "holds" } else { "fails" }));
+        } else if m4_ok != all_true {
+            // C*, e* are M4's own combination; only the witness commitment comes from the kernels
+            acc.fail(
+                "aggregate",
+                if all_true { "aggregate/witness-does-not-open-true-claims" } else { "aggregate/witness-opens-false-claim" },
+                format!("M4 opening equation on (Σ v^i C_i, Σ v^i e_i, kernel witness) is {} but the claims are {} ({}, {})", m4_ok, if all_true { "all true" } else { "not all true" }, ac.name, cn),
+                dd.clone(),
+            );
+        }
+        acc.case("batch_check-flattened", &shape, Some(fnv(format!("bc|{}", dd).as_bytes())));
+        match guard(|| keys.batch_check(LABEL_STATIC, &[(ac.z, fc, fe_, w)], None).is_ok()) {
+            Err(p) => acc.fail("aggregate", "aggregate/check-panics", p, dd),
+            Ok(r) => {
+                if degenerate {
+                    acc.outcome(&format!("info:aggregate/challenge-0-hides-false-evaluation:real-check-{}", if r { "Ok" } else { "Err" }));
+                } else if r != all_true {
+                    let sig = if r { "aggregate/accepts-false-evaluation" } else { "aggregate/rejects-true-evaluations" };
+                    acc.fail("aggregate", sig, format!("flattened aggregate {} with claim {}: check returned {}", ac.name, cn, if r { "Ok" } else { "Err" }), dd);
+                } else if r {
+                    acc.outcome("aggregate:all-true-passes");
+                } else {
+                    acc.outcome("aggregate:fails-as-expected:false-evaluation");
+                }
+            }
+        }
+    }
+    acc
+}
+
+fn two_aggregates(ctx: &Ctx, keys: &k::Keys, np: usize) -> Acc {
+    let mut acc = Acc::default();
+    let d = ctx.d;
+    let z1 = rho_scalar(40);
+    let z2 = z1 * m4::root_of_unity(8);
+    let v = rho_scalar(41);
+    let polys1: Vec<Vec<Fe>> = vec![rho_vec(np, 70), rho_vec(np - 1, 71), rho_vec(4, 72), vec![fe(9)]];
+    let polys2: Vec<Vec<Fe>> = vec![rho_vec(np, 70), rho_vec(7.min(np), 73)];
+    let build = |polys: &[Vec<Fe>], z: Fe| -> Result<(G1Affine, Vec<G1Affine>, Vec<Fe>), String> {
+        let refs: Vec<&[Fe]> = polys.iter().map(|p| &p[..]).collect();
+        let wit = guard(|| k::aggregate_witness(&refs, &z, &v))?;
+        let w = commit_real(keys, &wit)?.map_err(|e| e)?;
+        let mut cms = vec![];
+        for p in polys {
+            cms.push(commit_real(keys, p)?.map_err(|e| e)?);
+        }
+        Ok((w, cms, polys.iter().map(|p| m4::horner(p, z)).collect()))
+    };
+    let (a1, a2) = match (build(&polys1, z1), build(&polys2, z2)) {
+        (Ok(a), Ok(b)) => (a, b),
+        _ => {
+            acc.fail("aggregate", "aggregate/commit-failed", "building two aggregated openings failed".into(), json!({"degree": d}));
+            return acc;
+        }
+    };
+    // claims: honest, then every single evaluation of either aggregate flipped
+    let mut claims: Vec<(String, Vec<Fe>, Vec<Fe>, bool)> = vec![("all-true".into(), a1.2.clone(), a2.2.clone(), true)];
+    for i in 0..a1.2.len() {
+        let mut e = a1.2.clone();
+        e[i] = e[i] + one();
+        claims.push((format!("first-aggregate-evaluation-{}-false", i), e, a2.2.clone(), false));
+    }
+    for i in 0..a2.2.len() {
+        let mut e = a2.2.clone();
+        e[i] = e[i] + one();
+        claims.push((format!("second-aggregate-evaluation-{}-false", i), a1.2.clone(), e, false));
+    }
+    for (cn, e1, e2, truth) in claims {
+        let shape = format!("d={}/two-aggregates", d);
+        let desc = json!({"kernel": "flatten+batch_check", "degree": d, "claim": cn, "points": [hex(&z1), hex(&z2)], "challenge": hex(&v)});
+        let p1: Vec<(Fe, G1Affine)> = e1.iter().copied().zip(a1.1.iter().copied()).collect();
+        let p2: Vec<(Fe, G1Affine)> = e2.iter().copied().zip(a2.1.iter().copied()).collect();
+        let (f1, f2) = match (guard(|| k::flatten(a1.0, &p1, &v)), guard(|| k::flatten(a2.0, &p2, &v))) {
+            (Ok(a), Ok(b)) => (a, b),
+            _ => {
+                acc.fail("aggregate", "flatten/panic", "flatten panicked".into(), desc);
+                continue;
+            }
+        };
+        let (m1, m2) = (m4::flatten(&p1, v), m4::flatten(&p2, v));
+        if (f1.0, f1.1) != (m4::affine(m1.0), m1.1) || (f2.0, f2.1) != (m4::affine(m2.0), m2.1) {
+            acc.fail("aggregate", "flatten/wrong-combination", "flatten differs from (Σ v^i C_i, Σ v^i e_i) (two aggregates)".into(), desc.clone());
+        }
+        acc.case("batch_check-two-flattened", &shape, Some(fnv(desc.to_string().as_bytes())));
+        match guard(|| keys.batch_check(LABEL_STATIC, &[(z1, f1.0, f1.1, a1.0), (z2, f2.0, f2.1, a2.0)], None).is_ok()) {
+            Err(p) => acc.fail("aggregate", "aggregate/check-panics", p, desc),
+            Ok(r) if r == truth => acc.outcome(if r { "aggregate:two-aggregates-all-true-pass" } else { "aggregate:two-aggregates-fail-as-expected" }),
+            Ok(r) => {
+                let sig = if r { "aggregate/accepts-false-evaluation" } else { "aggregate/rejects-true-evaluations" };
+                acc.fail("aggregate", sig, format!("batch of two flattened aggregates with claim {}: check returned {}", cn, if r { "Ok" } else { "Err" }), desc);
+            }
+        }
+    }
+    acc
+}
+
+fn aggregate_for(ctx: &Ctx, tier: Tier) -> Acc {
+    let mut acc = Acc::default();
+    let d = ctx.d;
+    let Ok(Ok(keys)) = guard(|| k::trim(&ctx.pp, d)) else {
+        acc.machinery.push(format!("aggregate section: trim({}) failed", d));
+        return acc;
+    };
+    let np = keys.powers().len();
+    let cases = agg_cases(np, tier);
+    for p in par_map(&cases, |ac| run_agg(ctx, &keys, ac, "")) {
+        match p {
+            Ok(a) => acc.merge(a),
+            Err(e) => acc.machinery.push(format!("aggregate worker panicked: {}", e)),
+        }
+    }
+    // flatten uses parallel iterators: a few cases inside real multi-thread pools
+    for t in [4usize, 17] {
+        let pool = rayon::ThreadPoolBuilder::new().num_threads(t).build().expect("pool");
+        for ac in cases.iter().filter(|c| c.name.starts_with("a4@rho") || c.name.starts_with("c3@rho")) {
+            let a = pool.install(|| run_agg(ctx, &keys, ac, &format!("/threads={}", t)));
+            acc.merge(a);
+        }
+    }
+    // two aggregated openings at z and z·omega_8, flattened and checked as one batch (the way the
+    // PLONK verifier uses the scheme): honest => Ok; one false evaluation in either aggregate => Err
+    acc.merge(two_aggregates(ctx, &keys, np));
+    // empty aggregate: outside the statement ("several polynomials"), informational only
+    let w = ctx.srs.g;
+    match guard(|| k::flatten(w, &[], &one())) {
+        Err(_) => acc.outcome("info:flatten(empty aggregate):panics"),
+        Ok((c, e)) => acc.outcome(&format!("info:flatten(empty aggregate):returns(identity={}, eval_zero={})", is_id(&c), e == zero())),
+    }
+    match guard(|| k::aggregate_witness(&[], &one(), &one())) {
+        Err(_) => acc.outcome("info:aggregate_witness(no polynomials):panics"),
+        Ok(p) => acc.outcome(&format!("info:aggregate_witness(no polynomials):returns(len={})", p.len())),
+    }
+    acc
+}
+
+// ---------------------------------------------------------------------------
+// driver
+// ---------------------------------------------------------------------------
+
+const KERNELS: [&str; 12] = [
+    "setup", "setup-power-link", "trim", "commit", "commit-additivity", "commit-homogeneity", "open", "batch_check-single", "batch_check", "aggregate_witness",
+    "flatten", "batch_check-flattened",
+];
+const CORRUPTIONS: [&str; 6] = ["wrong-evaluation", "wrong-witness", "swapped-commitments", "point-mismatch", "empty", "length-mismatch"];
+
+pub fn main(tier: Tier, replay: Option<Value>) -> i32 {
+    let mut run = Run::new("C20", tier, "model_checking");
+    run.rule = "cases = (kernel, input) pairs executed on the real KZG code (PublicParameters::setup / to_var_bytes, verif::kernels trim / commit / batch_check / aggregate_witness / flatten) and compared with M4 (points parsed from the bytes, commitment as explicit Σ c_i·P_i, opening equation e(C − vG, H) = e(W, X_H − zH) by two pairings); batches: every single-position corruption of every base batch; states = distinct (kernel, degree/shape) configurations; non-trivial = distinct cases with a non-zero polynomial / non-identity result".into();
+    let (only, target_sig) = match &replay {
+        Some(r) => {
+            run.set_replay_mode();
+            (r["case"]["section"].as_str().map(|s| s.to_string()), r["signature"].as_str().map(|s| s.to_string()))
+        }
+        None => (None, None),
+    };
+    let want = |s: &str| only.as_deref().map_or(true, |o| o == s);
+    let degrees: Vec<usize> = match tier {
+        Tier::Quick => (1..=8).chain([24]).collect(),
+        Tier::Thorough => (1..=24).collect(),
+    };
+    let mut acc = Acc::default();
+
+    // setup(0) must be refused
+    match setup_raw_zero() {
+        Ok(true) => acc.outcome("srs:setup(0)-is-Err"),
+        Ok(false) => acc.fail("srs", "srs/setup-zero-accepted", "PublicParameters::setup(0) returned Ok".into(), json!({"degree": 0})),
+        Err(p) => acc.fail("srs", "srs/setup-zero-panics", p, json!({"degree": 0})),
+    }
+
+    // srs (always: the other sections need the parsed parameters)
+    let mut ctxs: Vec<Arc<Ctx>> = vec![];
+    for (d, r) in degrees.iter().zip(par_map(&degrees, |d| srs_for_degree(*d))) {
+        match r {
+            Ok((a, c)) => {
+                if want("srs") {
+                    acc.merge(a);
+                }
+                match c {
+                    Some(c) => ctxs.push(Arc::new(c)),
+                    None => {
+                        if !want("srs") {
+                            run.machinery(format!("setup({}) unusable", d));
+                        }
+                    }
+                }
+            }
+            Err(e) => run.machinery(format!("srs worker for degree {} panicked: {}", d, e)),
+        }
+    }
+    eprintln!("[C20] srs done at {:.1}s", run.elapsed());
+    if want("trim") {
+        for p in par_map(&ctxs, |c| trim_for(c)) {
+            match p {
+                Ok(a) => acc.merge(a),
+                Err(e) => run.machinery(format!("trim worker panicked: {}", e)),
+            }
+        }
+        // absurd sizes (n + 6 overflows usize): outside "all trim sizes" of real circuits, informational
+        if let Some(c) = ctxs.first() {
+            for n in [usize::MAX, usize::MAX - 4, usize::MAX - 5] {
+                let o = match guard(|| k::trim(&c.pp, n)) {
+                    Err(_) => "panics(arithmetic overflow in this build profile)".to_string(),
+                    Ok(Err(e)) => format!("Err({:?})", e),
+                    Ok(Ok(kk)) => format!("Ok({} points)", kk.powers().len()),
+                };
+                acc.outcome(&format!("info:trim(usize::MAX-{}):{}", usize::MAX - n, o));
+            }
+        }
+    }
+    if want("commit") {
+        let mut jobs: Vec<(Arc<Ctx>, usize)> = vec![];
+        for c in &ctxs {
+            let mut ts = vec![1usize.min(c.d), c.d];
+            if c.d == 24 {
+                ts.push(12);
+            }
+            ts.sort();
+            ts.dedup();
+            for t in ts {
+                jobs.push((c.clone(), t));
+            }
+        }
+        for p in par_map(&jobs, |(c, t)| commit_for(c, *t)) {
+            match p {
+                Ok(a) => acc.merge(a),
+                Err(e) => run.machinery(format!("commit worker panicked: {}", e)),
+            }
+        }
+        eprintln!("[C20] commit done at {:.1}s", run.elapsed());
+    }
+    let open_degrees: Vec<usize> = tier.pick(vec![3, 24], vec![1, 3, 8, 16, 24]);
+    let pick = |ds: &[usize]| -> Vec<Arc<Ctx>> { ctxs.iter().filter(|c| ds.contains(&c.d)).cloned().collect() };
+    if want("open") {
+        for c in pick(&open_degrees) {
+            acc.merge(open_for(&c));
+        }
+        eprintln!("[C20] open done at {:.1}s", run.elapsed());
+    }
+    if want("batch") {
+        for c in pick(&tier.pick(vec![24], vec![4, 24])) {
+            acc.merge(batch_for(&c));
+        }
+        eprintln!("[C20] batch done at {:.1}s", run.elapsed());
+    }
+    if want("aggregate") {
+        for c in pick(&tier.pick(vec![24], vec![4, 24])) {
+            acc.merge(aggregate_for(&c, tier));
+        }
+        eprintln!("[C20] aggregate done at {:.1}s", run.elapsed());
+    }
+
+    run.states = acc.shapes.len() as u64;
+    run.transitions = acc.cases;
+    run.traces_validated = acc.cases;
+    run.evaluations = acc.cases;
+    for h in &acc.hashes {
+        run.nontrivial(*h);
+    }
+    for (kk, v) in &acc.outcomes {
+        run.outcome_n(kk, *v);
+    }
+    for m in &acc.machinery {
+        run.machinery(m.clone());
+    }
+    run.sample(json!({"degrees": degrees, "open_degrees": open_degrees}));
+    if replay.is_some() {
+        let mut hit = false;
+        for f in &acc.fails {
+            if Some(&f.sig) == target_sig.as_ref() {
+                hit = true;
+                println!("replay: signature {} reproduced: {}", f.sig, f.what);
+                run.violation(&f.sig, &f.what, f.case.clone());
+            }
+        }
+        if !hit {
+            println!("replay: signature {:?} not reproduced", target_sig);
+        }
+        return run.finish();
+    }
+    for f in &acc.fails {
+        run.violation(&f.sig, &f.what, f.case.clone());
+    }
+    for kn in KERNELS {
+        run.gate(&format!(">=1 case for {}", kn), acc.kernels.get(kn).copied().unwrap_or(0) > 0);
+    }
+    for c in CORRUPTIONS {
+        run.gate(&format!(">=1 batch failing as expected for corruption kind {}", c), acc.outcomes.get(&format!("batch:fails-as-expected:{}", c)).copied().unwrap_or(0) > 0);
+    }
+    run.gate(">=1 honest batch accepted", acc.outcomes.get("batch:honest:Ok").copied().unwrap_or(0) > 0);
+    run.gate(">=1 aggregate failing as expected", acc.outcomes.get("aggregate:fails-as-expected:false-evaluation").copied().unwrap_or(0) > 0);
+    run.gate(">=1 aggregate accepted", acc.outcomes.get("aggregate:all-true-passes").copied().unwrap_or(0) > 0);
+    run.gate(">=1 single opening rejected for value+1", acc.outcomes.get("open:real-check/value+1:Err").copied().unwrap_or(0) > 0);
+    run.gate(">=1 commit refused beyond the degree", acc.outcomes.get("commit:Err-beyond-degree").copied().unwrap_or(0) > 0);
+    run.gate(">=1 trim refused beyond capacity", acc.outcomes.get("trim:Err-beyond-capacity").copied().unwrap_or(0) > 0);
+    run.bound("srs_degrees", json!(degrees));
+    run.bound("trim_sizes", json!("0..=d+3 for every degree d"));
+    run.bound("commit_lengths", json!("0..=points+2 for trims {1, d} (and 12 for d=24)"));
+    run.bound("batch_sizes", json!([1, 2, 3, 4]));
+    run.bound("aggregate_sizes", json!([1, 2, 3, 4]));
+    run.extra.insert("cases_per_kernel".into(), json!(acc.kernels));
+    run.assumptions = vec![
+        "M4 is the statement: points as PublicParameters::to_var_bytes encodes them, commitment = Σ c_i·P_i, opening equation by two independent pairing() calls; dusk_bls12_381 group/pairing arithmetic and point decoding are the trusted base".into(),
+        "a batch / aggregate with a false entry passes the random-linear-combination check only with probability ~2^-250 over the transcript challenge; such collisions are assumed not to occur".into(),
+        "aggregation challenge 0 (which hides evaluations at positions >= 1) and empty aggregates are outside the statement and recorded as informational outcomes".into(),
+        "'long enough for every polynomial the prover commits to' = at least n + 7 points (degree n + 6: blinded wire / permutation / quotient-share polynomials)".into(),
+    ];
+    run.finish()
+}
+
+fn setup_raw_zero() -> Result<bool, String> {
+    let mut rng = SeedRng(Rho::new(seed(), 2000));
+    guard(|| PublicParameters::setup(0, &mut rng).is_err())
 }
